@@ -814,7 +814,7 @@ func main() {
 		exhaustive = exhaustive && fr.complete
 		rule = append(rule, fmt.Sprintf("3-shard tombstone-broadcast family (exhaustive product, every case a scripted history of plain letters with the oracle after each step): %d cases = O placed on its first or second HRW shard x lock broadcast with %s x tombstone broadcast with %s x all 6 visiting orders of the tombstone broadcast, each followed by a GC pass on every shard; %d steps, %d distinct states, tombstone rejected in %d cases and accepted in %d, lock accepted in %d, %.0f s",
 			fr.cases, fr.lockDesc, fr.tombDesc, fr.steps, fr.states, fr.rejected, fr.accepted, fr.protected, time.Since(t0).Seconds()))
-		if fr.rejected == 0 || fr.protected == 0 {
+		if r.Violations() == 0 && (fr.rejected == 0 || fr.protected == 0) {
 			r.Fatal("vacuous family: rejected=%d protected=%d", fr.rejected, fr.protected)
 		}
 	}
@@ -839,7 +839,7 @@ func main() {
 	r.Set("judged_observations_excused_by_unservable_shards", cntExcused.Load())
 	r.Set("protection_started", cntProtStart.Load())
 	r.Set("protection_ended_by_lock_expiration", cntProtEnd.Load())
-	if !*familyOnly && (cntJudged.Load() == 0 || cntJudgedOK.Load() == 0 || cntProtEnd.Load() == 0) {
+	if !*familyOnly && r.Violations() == 0 && (cntJudged.Load() == 0 || cntJudgedOK.Load() == 0 || cntProtEnd.Load() == 0) {
 		r.Fatal("vacuous run: judged=%d served=%d expirations=%d", cntJudged.Load(), cntJudgedOK.Load(), cntProtEnd.Load())
 	}
 	fmt.Printf("  judged observations: %d (object served: %d, excused (no shard able to serve even an unlocked object): %d); protection started %d times, ended by lock expiration %d times (counted over all replays)\n",
